@@ -56,19 +56,16 @@ Barging and C14: in the schedules above nobody barges (QuietStep), so C14 is not
 (`Props/C14.lean`, MU_LONG_WAIT after 30 failed attempts blocks fresh acquirers) is what bounds the
 number of times a woken thread can lose against FRESH arrivals in an arbitrary schedule.
 
-## NOT proved: fair termination for all schedules
+## Fair termination for all schedules: stated here, PROVED in `Props/C02Fair.lean` (`C02_fair_termination`)
 
 `C02_fair_termination_full` (a `def … : Prop`): for every infinite execution (`Exec`) that is
 weakly fair to every thread inside a call and not asleep (`WeakFair`), in which every holder
 eventually calls unlock / runlock (`HoldersRelease`), only finitely many acquisition calls
 arrive (`FiniteArrivals`) and only finitely many CASes on `remove_count` fail (`FiniteRcFails`),
-every lock / rlock call returns.  What is missing is a ranking that is
-robust under interleaving: failed CASes and spinning on the spinlock are not progress of the
-failing thread but of the thread that made it fail.
-`FiniteArrivals` cannot be dropped under WEAK fairness: MU_SPINLOCK is a test-and-set lock, so with
-an unbounded stream of other callers a thread can find it taken at each of its own loads
-(mu.c:80-84, 303-307); nsync bounds barging on the LOCK (C14) but promises no fairness on the
-spinlock.
+every lock / rlock call returns.  The proof (Props/C02Fair.lean) chains "eventually forever" facts,
+each with a local rank; it also shows by explicit fair counter-executions that none of
+`HoldersRelease`, `FiniteRcFails`, `FiniteArrivals` can be dropped (for the last one: a thread can be
+overtaken for ever between its load and its enqueue CAS by lock/unlock pairs on the fast paths).
 -/
 namespace NsyncVerif.MuQ
 
@@ -189,7 +186,7 @@ def FiniteArrivals {cfg : Cfg} {s0 : State} (x : Exec cfg s0) : Prop :=
 def FiniteRcFails {cfg : Cfg} {s0 : State} (x : Exec cfg s0) : Prop :=
   ∃ n, ∀ j e, n ≤ j → x.σ j = some e → e.rcFail = false
 
-/-- NOT proved. -/
+/-- Proved in `Props/C02Fair.lean`: `theorem C02_fair_termination : C02_fair_termination_full`. -/
 def C02_fair_termination_full : Prop :=
   ∀ (cfg : Cfg) (s0 : State) (x : Exec cfg s0), Reachable cfg s0 →
     WeakFair x → HoldersRelease x → FiniteArrivals x → FiniteRcFails x →
